@@ -73,7 +73,7 @@ def ref_request(ex, i, step, states):
     req = {"step": {k: v for k, v in step.items() if k in ("k", "obj", "meth", "fn", "args", "kwargs")},
            "rng_state": states.get(i)}
     if "obj" in step:
-        cls, cfg = ex.objcfg[step["obj"]]
+        cls, cfg = getattr(ex, "cfg_at", {}).get(i) or ex.objcfg[step["obj"]]
         req["cls"] = cls
         req["cfg"] = cfg
     pre = []
